@@ -5,15 +5,56 @@ From PJ.Proofs Require Import TermInd.
 
 (* wire terms without quoted triples *)
 Fixpoint no_quoted (w : wterm) : bool := match w with WTriple _ _ _ => false | _ => true end.
-Definition no_quoted_opt (o : option wterm) : bool := match o with Some w => no_quoted w | None => true end.
+(* ... whose language tag, if there is one, rdflib's constructor accepts (every well-formed BCP 47 tag is) *)
+Definition lang_ok (w : wterm) : bool := match w with WLit _ (LkLang t) => is_nil t || valid_langtag t | _ => true end.
+Definition wt_ok (w : wterm) : bool := no_quoted w && lang_ok w.
+Definition no_quoted_opt (o : option wterm) : bool := match o with Some w => wt_ok w | None => true end.
 
-Lemma decode_term_agree (w : wterm) (st : dstate) :
-  no_quoted w = true -> decode_term Generic w st = decode_term Rdflib w st.
-Proof. destruct w; cbn; intros; try reflexivity; discriminate. Qed.
+(* What the rdflib integration's reader hands out for a term the stream denotes: the term rdflib's constructor builds -- the lexical
+   form of an xsd:token / xsd:normalizedString literal REWRITTEN (Terms.rdflib_lex), everything else as it is. *)
+Definition rview (t : term) : term :=
+  match t with TLit lex None dt => TLit (rdflib_lex dt lex) None dt | _ => t end.
+Definition eview (e : event) : event :=
+  match e with
+  | ETriple s p o => ETriple (rview s) (rview p) (rview o)
+  | EQuad s p o g => EQuad (rview s) (rview p) (rview o) (rview g)
+  | EPrefix n i => EPrefix n i
+  end.
+(* the reader's state: same tables; the remembered terms are the ones that were handed out *)
+Definition vst (st : dstate) : dstate :=
+  {| ds_names := ds_names st; ds_prefixes := ds_prefixes st; ds_datatypes := ds_datatypes st;
+     ds_s := option_map rview (ds_s st); ds_p := option_map rview (ds_p st); ds_o := option_map rview (ds_o st);
+     ds_g := option_map rview (ds_g st); ds_graph := option_map rview (ds_graph st) |}.
+Definition vres {X} (f : dstate -> X -> X) (r : res (dstate * X)) : res (dstate * X) :=
+  match r with Ok (st, x) => Ok (vst st, f st x) | Err e => Err e end.
 
-Lemma decode_slot_agree (w : option wterm) prev st :
-  no_quoted_opt w = true -> decode_slot Generic w prev st = decode_slot Rdflib w prev st.
-Proof. destruct w as [w|]; cbn; intros H; [now apply decode_term_agree|reflexivity]. Qed.
+Lemma decode_literal_view lex k st : lang_ok (WLit lex k) = true ->
+  decode_literal Rdflib lex k (vst st) = match decode_literal Generic lex k st with Ok (st', t) => Ok (vst st', rview t) | Err e => Err e end.
+Proof.
+  intros H. unfold decode_literal. destruct k as [|t|id]; cbn [lang_ok] in H.
+  - reflexivity.
+  - destruct t as [|c t]; [reflexivity|]. cbn [is_nil orb] in H. cbn [is_nil mk_literal bind]. rewrite H. reflexivity.
+  - cbn [vst ds_datatypes]. destruct (nlen _ =? 0); [reflexivity|].
+    destruct (decode_datatype_term_index id (ds_datatypes st)) as [[d' dt]|]; reflexivity.
+Qed.
+
+Lemma decode_term_view (w : wterm) (st : dstate) : wt_ok w = true ->
+  decode_term Rdflib w (vst st) = match decode_term Generic w st with Ok (st', t) => Ok (vst st', rview t) | Err e => Err e end.
+Proof.
+  unfold wt_ok. intros H. apply andb_prop in H. destruct H as [Hq Hl].
+  destruct w as [pi ni|l|lex k| |a b c]; cbn [decode_term no_quoted] in *; try discriminate.
+  - unfold decode_iri, lift, bind. cbn [vst ds_names ds_prefixes].
+    destruct (decode_name_term_index ni (ds_names st)) as [[n' name]|]; [|reflexivity].
+    destruct (decode_prefix_term_index pi (ds_prefixes st)) as [[p' prefix]|]; reflexivity.
+  - reflexivity.
+  - apply decode_literal_view. exact Hl.
+  - reflexivity.
+Qed.
+
+Lemma decode_slot_view (w : option wterm) prev st : no_quoted_opt w = true ->
+  decode_slot Rdflib w (option_map rview prev) (vst st) =
+  match decode_slot Generic w prev st with Ok (st', t) => Ok (vst st', rview t) | Err e => Err e end.
+Proof. destruct w as [w|]; cbn [no_quoted_opt decode_slot]; intros H; [now apply decode_term_view|]. destruct prev; reflexivity. Qed.
 
 Definition row_rdf11 (r : row) : bool :=
   match r with
@@ -23,49 +64,127 @@ Definition row_rdf11 (r : row) : bool :=
   | _ => true
   end.
 
-Lemma decode_spo_agree s p o st :
+Lemma decode_spo_view s p o st :
   no_quoted_opt s = true -> no_quoted_opt p = true -> no_quoted_opt o = true ->
-  decode_spo Generic s p o st = decode_spo Rdflib s p o st.
+  decode_spo Rdflib s p o (vst st) =
+  match decode_spo Generic s p o st with Ok (st', ts, tp, to) => Ok (vst st', rview ts, rview tp, rview to) | Err e => Err e end.
 Proof.
-  intros Hs Hp Ho. unfold decode_spo, bind. rewrite (decode_slot_agree s _ _ Hs).
-  destruct (decode_slot Rdflib s (ds_s st) st) as [[s1 ts]|]; [|reflexivity].
-  rewrite (decode_slot_agree p _ _ Hp).
-  destruct (decode_slot Rdflib p (ds_p st) s1) as [[s2 tp]|]; [|reflexivity].
-  rewrite (decode_slot_agree o _ _ Ho). reflexivity.
+  intros Hs Hp Ho. unfold decode_spo, bind.
+  change (ds_s (vst st)) with (option_map rview (ds_s st)). rewrite (decode_slot_view s _ _ Hs).
+  destruct (decode_slot Generic s (ds_s st) st) as [[s1 ts]|]; [|reflexivity].
+  change (ds_p (vst st)) with (option_map rview (ds_p st)). rewrite (decode_slot_view p _ _ Hp).
+  destruct (decode_slot Generic p (ds_p st) s1) as [[s2 tp]|]; [|reflexivity].
+  change (ds_o (vst st)) with (option_map rview (ds_o st)). rewrite (decode_slot_view o _ _ Ho).
+  destruct (decode_slot Generic o (ds_o st) s2) as [[s3 to]|]; reflexivity.
 Qed.
 
-(* row by row, the generic and the rdflib decoder do the same on RDF 1.1 rows *)
-Theorem decode_row_agree (ak : adapter_kind) (po : poptions) (r : row) (st : dstate) :
-  row_rdf11 r = true -> decode_row Generic ak po r st = decode_row Rdflib ak po r st.
+(* row by row: on RDF 1.1 rows the rdflib decoder does what the generic one does, and hands out the VIEW of what that one hands out *)
+Theorem decode_row_view (ak : adapter_kind) (po : poptions) (r : row) (st : dstate) :
+  row_rdf11 r = true ->
+  decode_row Rdflib ak po r (vst st) =
+  match decode_row Generic ak po r st with Ok (st', evs) => Ok (vst st', map eview evs) | Err e => Err e end.
 Proof.
-  destruct r; cbn [row_rdf11 decode_row]; intros H; try reflexivity.
+  destruct r; cbn [row_rdf11 decode_row]; intros H.
+  - destruct (validate_stream_options po o); reflexivity.
+  - unfold bind. cbn [vst ds_prefixes]. destruct (assign id v (ds_prefixes st)); reflexivity.
+  - unfold bind. cbn [vst ds_names]. destruct (assign id v (ds_names st)); reflexivity.
+  - unfold bind. cbn [vst ds_datatypes]. destruct (assign id v (ds_datatypes st)); reflexivity.
   - apply andb_prop in H. destruct H as [H Ho]. apply andb_prop in H. destruct H as [Hs Hp].
-    now rewrite decode_spo_agree.
+    rewrite decode_spo_view by assumption. unfold bind.
+    destruct (decode_spo Generic s p o st) as [[[[st1 ts] tp] to]|]; [|reflexivity].
+    destruct ak; try reflexivity. cbn [vst ds_graph]. destruct (ds_graph st1); reflexivity.
   - apply andb_prop in H. destruct H as [H Hg]. apply andb_prop in H. destruct H as [H Ho].
-    apply andb_prop in H. destruct H as [Hs Hp]. rewrite decode_spo_agree by assumption.
-    unfold bind. destruct (decode_spo Rdflib s p o st) as [[[[st1 ts] tp] to]|]; [|reflexivity].
-    now rewrite decode_slot_agree.
-  - destruct g as [w|]; [|reflexivity]. cbn in H. now rewrite decode_term_agree.
+    apply andb_prop in H. destruct H as [Hs Hp]. rewrite decode_spo_view by assumption. unfold bind.
+    destruct (decode_spo Generic s p o st) as [[[[st1 ts] tp] to]|]; [|reflexivity].
+    change (ds_g (vst st1)) with (option_map rview (ds_g st1)). rewrite (decode_slot_view g _ _ Hg).
+    destruct (decode_slot Generic g (ds_g st1) st1) as [[st2 tg]|]; [|reflexivity].
+    destruct ak; reflexivity.
+  - destruct g as [w|]; [|reflexivity]. cbn [no_quoted_opt] in H. rewrite (decode_term_view w st H). unfold bind.
+    destruct (decode_term Generic w st) as [[st' tg]|]; [|reflexivity]. destruct ak; reflexivity.
+  - destruct ak; reflexivity.
+  - unfold decode_iri, lift, bind. cbn [vst ds_names ds_prefixes].
+    destruct (decode_name_term_index name_id (ds_names st)) as [[n' nm]|]; [|reflexivity].
+    destruct (decode_prefix_term_index prefix_id (ds_prefixes st)) as [[p' prefix]|]; reflexivity.
+  - reflexivity.
 Qed.
 
-Theorem decode_rows_agree (ak : adapter_kind) (po : poptions) (rows : list row) (st : dstate) :
-  forallb row_rdf11 rows = true -> decode_rows Generic ak po rows st = decode_rows Rdflib ak po rows st.
+Theorem decode_rows_view (ak : adapter_kind) (po : poptions) (rows : list row) (st : dstate) :
+  forallb row_rdf11 rows = true ->
+  decode_rows Rdflib ak po rows (vst st) =
+  let '(st', out, err) := decode_rows Generic ak po rows st in (vst st', map eview out, err).
 Proof.
   revert st; induction rows as [|r rows IH]; intros st; cbn [forallb decode_rows]; [reflexivity|].
   intros H. apply andb_prop in H. destruct H as [Hr Hrest].
-  rewrite (decode_row_agree _ _ _ _ Hr). destruct (decode_row Rdflib ak po r st) as [[st' evs]|]; [|reflexivity].
-  now rewrite IH.
+  rewrite (decode_row_view _ _ _ _ Hr). destruct (decode_row Generic ak po r st) as [[st' evs]|]; [|reflexivity].
+  rewrite (IH _ Hrest). destruct (decode_rows Generic ak po rows st') as [[st'' out] err]. rewrite map_app. reflexivity.
 Qed.
 
-Theorem decode_frames_agree (ak : adapter_kind) (po : poptions) (fs : list frame) (st : dstate) :
+Definition fview (fr : frame_result) : frame_result := let '(md, evs, err) := fr in (md, map eview evs, err).
+
+Theorem decode_frames_view (ak : adapter_kind) (po : poptions) (fs : list frame) (st : dstate) :
   forallb (fun f => forallb row_rdf11 (f_rows f)) fs = true ->
-  decode_frames Generic ak po fs st = decode_frames Rdflib ak po fs st.
+  decode_frames Rdflib ak po fs (vst st) = map fview (decode_frames Generic ak po fs st).
 Proof.
   revert st; induction fs as [|f fs IH]; intros st; cbn [forallb decode_frames]; [reflexivity|].
   intros H. apply andb_prop in H. destruct H as [Hf Hrest].
-  rewrite (decode_rows_agree _ _ _ _ Hf). destruct (decode_rows Rdflib ak po (f_rows f) st) as [[st' out] err].
-  destruct err; [reflexivity|]. now rewrite IH.
+  rewrite (decode_rows_view _ _ _ _ Hf). destruct (decode_rows Generic ak po (f_rows f) st) as [[st' out] err].
+  cbn [map fview]. destruct err; [reflexivity|]. now rewrite IH.
 Qed.
+
+(* a state that remembers no term (a new decoder's) is its own view *)
+Lemma vst_fresh st : ds_s st = None -> ds_p st = None -> ds_o st = None -> ds_g st = None -> ds_graph st = None -> vst st = st.
+Proof. destruct st; cbn. intros -> -> -> -> ->. reflexivity. Qed.
+
+(* terms rdflib can hold: its constructor leaves them as they are and accepts their language tag (every literal of an rdflib
+   Graph is one: it was built by that constructor) *)
+Definition term_rdflib (t : term) : bool :=
+  match t with
+  | TLit lex None dt => str_eqb (rdflib_lex dt lex) lex
+  | TLit lex (Some l) None => is_nil l || valid_langtag l
+  | TLit _ (Some _) (Some _) => false
+  | _ => true
+  end.
+
+Lemma str_eqb_true (a : str) : forall b, str_eqb a b = true -> a = b.
+Proof.
+  induction a as [|x a IH]; intros [|y b]; cbn; intros H; try discriminate; [reflexivity|].
+  apply andb_prop in H. destruct H as [H1 H2]. apply N.eqb_eq in H1. subst. f_equal. now apply IH.
+Qed.
+
+Lemma rview_fixed t : term_rdflib t = true -> rview t = t.
+Proof.
+  destruct t as [x|x|lex [l|] dt|s p o| |]; cbn; try reflexivity. intros H. apply str_eqb_true in H. now rewrite H.
+Qed.
+
+(* the two readers hand out the same where everything the generic reader hands out is a term rdflib can hold *)
+Definition result_fixed (fr : frame_result) : Prop := Forall (fun e => eview e = e) (snd (fst fr)).
+
+Lemma map_fixed {X} (f : X -> X) (l : list X) : Forall (fun x => f x = x) l -> map f l = l.
+Proof. induction 1 as [|x l Hx _ IH]; cbn; [reflexivity|]. now rewrite Hx, IH. Qed.
+
+Theorem decode_frames_agree (ak : adapter_kind) (po : poptions) (fs : list frame) (st : dstate) :
+  forallb (fun f => forallb row_rdf11 (f_rows f)) fs = true -> vst st = st ->
+  Forall result_fixed (decode_frames Generic ak po fs st) ->
+  decode_frames Rdflib ak po fs st = decode_frames Generic ak po fs st.
+Proof.
+  intros Hf Hst Hfix. rewrite <- Hst at 1. rewrite (decode_frames_view ak po fs st Hf).
+  apply map_fixed. induction Hfix as [|[[md evs] err] frs H _ IH]; constructor; [|exact IH].
+  unfold result_fixed in H. cbn [fst snd] in H. cbn [fview]. now rewrite (map_fixed _ _ H).
+Qed.
+
+(* ... and NOT in general: a valid RDF 1.1 stream on which they differ (the literal "  a"^^xsd:token) *)
+Definition token_stream : list frame :=
+  [mkframe [RDatatype 1 xsd_token; RTriple (Some (WBnode [115])) (Some (WBnode [112])) (Some (WLit [32; 32; 97] (LkDt 1)))]].
+Definition token_po : poptions :=
+  {| po_phys := 1; po_logical := 1; po_maxn := 8; po_maxp := 0; po_maxd := 4; po_name := []; po_gen := false; po_star := false;
+     po_version := 1; po_delimited := true; po_nd := false |}.
+
+Theorem readers_differ_on_token_literals :
+  exists st, decoder_new token_po = Ok st /\
+    forallb (fun f => forallb row_rdf11 (f_rows f)) token_stream = true /\
+    decode_frames Generic ATriples token_po token_stream st = [([], [ETriple (TBnode [115]) (TBnode [112]) (TLit [32; 32; 97] None (Some xsd_token))], None)] /\
+    decode_frames Rdflib ATriples token_po token_stream st = [([], [ETriple (TBnode [115]) (TBnode [112]) (TLit [97] None (Some xsd_token))], None)].
+Proof. eexists. split; [vm_compute; reflexivity|]. split; [vm_compute; reflexivity|]. split; vm_compute; reflexivity. Qed.
 
 (* the serializers: API terms of RDF 1.1 (no quoted triples; the default graph is its own term) *)
 Fixpoint term_rdf11 (t : term) : bool := match t with TTriple _ _ _ => false | _ => true end.
